@@ -4,6 +4,7 @@ import (
 	"bytes"
 	"context"
 	goos "os"
+	"sync"
 
 	"github.com/risor-io/risor/arg"
 	"github.com/risor-io/risor/object"
@@ -12,6 +13,39 @@ import (
 
 func GetOS(ctx context.Context) os.OS {
 	return os.GetDefaultOS(ctx)
+}
+
+// standardStream is the attribute for os.stdin, os.stdout or os.stderr. What it
+// resolves to is the stream of the OS of the evaluation that asks. A file
+// object starts a goroutine that waits for its context, so the object is made
+// once per stream and context and handed out again while both stay the same:
+// a script that writes to os.stdout in a loop gets one of them, not one per
+// iteration.
+func standardStream(name, path string, get func(os.OS) os.File) *object.DynamicAttr {
+	var mu sync.Mutex
+	var lastStream os.File
+	var lastDone <-chan struct{}
+	var last *object.File
+	return object.NewDynamicAttr(name, func(ctx context.Context, _ string) (object.Object, error) {
+		stream := get(GetOS(ctx))
+		mu.Lock()
+		defer mu.Unlock()
+		if last == nil || !sameStream(stream, lastStream) || ctx.Done() != lastDone {
+			lastStream, lastDone, last = stream, ctx.Done(), object.NewFile(ctx, stream, path)
+		}
+		return last, nil
+	})
+}
+
+// sameStream compares two streams by identity; streams of a type that cannot
+// be compared are never the same.
+func sameStream(a, b os.File) (same bool) {
+	defer func() {
+		if recover() != nil {
+			same = false
+		}
+	}()
+	return a == b
 }
 
 func Args(ctx context.Context, args ...object.Object) object.Object {
@@ -618,17 +652,14 @@ func Module() *object.Module {
 		"user_config_dir": object.NewBuiltin("user_config_dir", UserConfigDir),
 		"user_home_dir":   object.NewBuiltin("user_home_dir", UserHomeDir),
 		"write_file":      object.NewBuiltin("write_file", WriteFile),
-		"stdin": object.NewDynamicAttr("stdin", func(ctx context.Context, name string) (object.Object, error) {
-			f := GetOS(ctx).Stdin()
-			return object.NewFile(ctx, f, "/dev/stdin"), nil
+		"stdin": standardStream("stdin", "/dev/stdin", func(o os.OS) os.File {
+			return o.Stdin()
 		}),
-		"stdout": object.NewDynamicAttr("stdout", func(ctx context.Context, name string) (object.Object, error) {
-			f := GetOS(ctx).Stdout()
-			return object.NewFile(ctx, f, "/dev/stdout"), nil
+		"stdout": standardStream("stdout", "/dev/stdout", func(o os.OS) os.File {
+			return o.Stdout()
 		}),
-		"stderr": object.NewDynamicAttr("stderr", func(ctx context.Context, name string) (object.Object, error) {
-			f := GetOS(ctx).Stderr()
-			return object.NewFile(ctx, f, "/dev/stderr"), nil
+		"stderr": standardStream("stderr", "/dev/stderr", func(o os.OS) os.File {
+			return o.Stderr()
 		}),
 		"err_not_exist":         object.NewError(goos.ErrNotExist).WithRaised(false),
 		"err_exist":             object.NewError(goos.ErrExist).WithRaised(false),
